@@ -29,6 +29,10 @@ class e2(Event):
     pass
 
 
+class act(Event):
+    """Carrier of a structural change that is performed by a handler while a flush pass is running."""
+
+
 EV = {'e1': e1, 'e2': e2}
 
 
@@ -45,6 +49,7 @@ class World:
         self.seen_keys = {}    # root index -> {(name, target repr): ops counter}
         self.classes = set()
         self.nontrivial = False
+        self.actions = {}      # k -> closure run by the first handler that receives act(k)
 
 
 def _mk_classes(w):
@@ -57,11 +62,20 @@ def _mk_classes(w):
         f.__name__ = hid.replace('.', '_')
         return f
 
+    def run_action(k):
+        fn = w.actions.pop(k, None)
+        if fn is not None:
+            fn()
+
     class Obs(BaseComponent):
         def _dispatcher(self, event, channels, remaining):
             if isinstance(event, (e1, e2)):
                 _expect(w, self, event, channels)
             return super()._dispatcher(event, channels, remaining)
+
+        @H('act', channel='*')
+        def _act(self, event, k):
+            run_action(k)
 
     class Plain(Obs):
         h1 = H('e1')(rec('plain.h1'))
@@ -83,6 +97,10 @@ def _mk_classes(w):
             if isinstance(event, (e1, e2)):
                 _expect(w, self, event, channels)
             return super()._dispatcher(event, channels, remaining)
+
+        @H('act', channel='*')
+        def _act(self, event, k):
+            run_action(k)
 
     class Impl(ObsC):
         def e1(self, *args):
@@ -171,7 +189,7 @@ class C01(Prop):
 
     def strategy(self, tier):
         op = st.tuples(st.sampled_from(['reg', 'reg', 'unreg', 'unreg', 'unreg_nosettle', 'addh', 'addh', 'rmh', 'probe', 'probe',
-                                        'probe', 'fire', 'flush', 'recycle', 'recycle', 'detach_race', 'unreg_nosettle']),
+                                        'probe', 'fire', 'flush', 'recycle', 'recycle', 'detach_race', 'unreg_nosettle', 'in_batch', 'in_batch']),
                        st.integers(0, 13), st.integers(0, 13), st.integers(0, 39)).map(list)
         return st.fixed_dictionaries({
             'pool': st.lists(st.tuples(st.sampled_from(SHAPES), st.sampled_from(['a', 'b', '*'])).map(list), min_size=2, max_size=7),
@@ -282,6 +300,42 @@ class C01(Prop):
                         r = root_of(c)
                         for _ in range(1 + k % 3):
                             r.tick()
+                    elif op == 'in_batch':
+                        # a handler changes the structure while a flush pass is running; a probe queued in the SAME
+                        # pass behind it must already see the new handler set (warm cache: same key probed before)
+                        r = root_of(c)
+                        do_probe(r, k, k // 2)
+                        sub = subtree(r)
+                        tgt = sub[j % len(sub)]
+                        kind = k % 4
+
+                        def change(tgt=tgt, kind=kind, r=r):
+                            if kind == 0:
+                                do_addh(tgt, k // 4)
+                            elif kind == 1:
+                                live = sorted(h for h, (nm, ch) in w.model[tgt.idx].items() if nm)
+                                if live:
+                                    hid = live[k % len(live)]
+                                    w.model[tgt.idx].pop(hid)
+                                    tgt.removeHandler(self._find_method(tgt, hid))
+                                    w.ops_since += 1
+                            elif kind == 2:
+                                others = [x for x in w.pool if x.parent is x and x is not r
+                                          and not getattr(x, '_unregister_pending', False)]
+                                if others:
+                                    others[k % len(others)].register(tgt)
+                                    w.ops_since += 1
+                            else:
+                                if tgt is not r:
+                                    do_unreg(tgt, False)
+                        tagc[0] += 0
+                        w.actions[len(w.actions) + 1000 * (tagc[0] + 1)] = change
+                        key = max(w.actions)
+                        r.fire(act(key), '*')
+                        do_probe(r, k, k // 2, queue_only=True)
+                        settle(r)
+                        do_probe(r, k, k // 2)
+                        w.classes.add('change-inside-flush-pass')
                     elif op == 'detach_race':
                         # probe the old root while c's unregistration is in flight (fills its cache), let it complete,
                         # then probe the old root and c again with the same key
